@@ -105,10 +105,12 @@ EmitList == (Len(x.l) <= 1 /\ x.dp = 0) \/ PrintT(<<"REPLAY", ToJson([t |-> "lis
 (* calls *)
 Bogus == <<122>>                                  \* the name z: no function, no parameter
 KernCall == Call(CP.kern, <<Arg(<<>>, VDim(65536))>>)
-ValsBase == {VInt(3), VDim(5), VInf(-7, 2), VStr(<<97>>), VStr(<<97, 98>>), VStr(CP.true),
+\* (84 114 117 101 = "True": a near miss of a special string)
+ValsBase == {VInt(3), VDim(5), VInf(-7, 2), VStr(<<97>>), VStr(<<97, 98>>), VStr(CP.true), VStr(<<84, 114, 117, 101>>),
              VList(<<>>), VList(<<KernCall>>), VList(<<Call(Bogus, <<>>)>>)}
 ValsRich == ValsBase \cup {VInt(-1), VInt(300), VDim(0), VStr(<<>>), VStr(CP.running), VStr(CP.fill), VStr(CP.after),
                            VStr(<<45, 48, 46, 53>>),                                    \* "-0.5"
+                           VStr(<<70, 105, 108>>), VStr(CP.running \o <<32>>), VStr(<<49, 101, 51>>),   \* "Fil" "running " "1e3"
                            VList(<<Call(CP.glue, <<>>)>>), VList(<<Call(CP.chars, <<Arg(<<>>, VStr(<<97, 98>>))>>)>>),
                            VList(<<KernCall, Call(CP.kern, <<Arg(CP.width, VInt(1))>>)>>)}
 Vals == IF Rich THEN ValsRich ELSE ValsBase
